@@ -45,6 +45,21 @@ def fact(expr: ast.expr, pol: bool) -> str:
     return txt if pol else f"not ({txt})"
 
 
+def canon_test(e: ast.expr, pol: bool) -> t.Tuple[ast.expr, bool]:
+    """`not x`, `x == 0`, `x != 0`, `bool(x)` read as tests of x itself: (x, truth value of x)."""
+    core = e
+    while True:
+        if isinstance(core, ast.UnaryOp) and isinstance(core.op, ast.Not):
+            core, pol = core.operand, not pol
+        elif isinstance(core, ast.Compare) and len(core.ops) == 1 and isinstance(core.ops[0], (ast.Eq, ast.NotEq)) and isinstance(core.comparators[0], ast.Constant) and core.comparators[0].value == 0 and not isinstance(core.comparators[0].value, bool):
+            pol = pol if isinstance(core.ops[0], ast.NotEq) else not pol
+            core = core.left
+        elif isinstance(core, ast.Call) and isinstance(core.func, ast.Name) and core.func.id == "bool" and len(core.args) == 1 and not core.keywords:
+            core = core.args[0]
+        else:
+            return core, pol
+
+
 class Ev:
     __slots__ = ("kind", "node", "tree", "pol", "target")
 
@@ -101,6 +116,29 @@ class PathSum:
             if e.kind == "cond":
                 split(t.cast(ast.expr, e.tree), bool(e.pol))
         return out
+
+    def consistent(self) -> bool:
+        """False when the path decides one condition both ways.  Two occurrences count as one condition when they are
+        the same test of the same value: equal after substitution (call results identified by call site), with
+        `x != 0` / `x == 0` / `not x` read as tests of x, and no call in between that is applied to the value tested."""
+        seen: t.Dict[str, bool] = {}
+        for e, pol in self.atoms():
+            core = e
+            while True:
+                if isinstance(core, ast.UnaryOp) and isinstance(core.op, ast.Not):
+                    core, pol = core.operand, not pol
+                elif isinstance(core, ast.Compare) and len(core.ops) == 1 and isinstance(core.ops[0], (ast.Eq, ast.NotEq)) and isinstance(core.comparators[0], ast.Constant) and core.comparators[0].value == 0 and not isinstance(core.comparators[0].value, bool):
+                    pol = pol if isinstance(core.ops[0], ast.NotEq) else not pol
+                    core = core.left
+                else:
+                    break
+            if isinstance(core, ast.Compare) and len(core.ops) == 1 and isinstance(core.ops[0], (ast.Is, ast.IsNot)) and isinstance(core.comparators[0], ast.Constant) and core.comparators[0].value is None:
+                continue  # `x is None` and `not x` are different tests
+            k = self.owner.key(core)
+            if k in seen and seen[k] != pol:
+                return False
+            seen.setdefault(k, pol)
+        return True
 
     def facts(self, before: t.Optional[Ev] = None, abbr: t.Optional[t.Dict[str, ast.AST]] = None) -> t.Set[str]:
         out: t.Set[str] = set()
@@ -217,7 +255,7 @@ class _Sub(ast.NodeTransformer):
 
 
 class Summary:
-    def __init__(self, f: Func, ref_params: t.Optional[t.List[str]] = None, loop_bound: int = 2, max_paths: int = 4000) -> None:
+    def __init__(self, f: Func, ref_params: t.Optional[t.List[str]] = None, loop_bound: int = 2, max_paths: int = 4000, prune: bool = False) -> None:
         self.f = f
         _tag_calls(f.node)
         self.cfg: CFG = build(f.node)
@@ -238,6 +276,8 @@ class Summary:
                 if ps is not None:
                     self.paths.append(ps)
             n += 1
+        if prune:
+            self.paths = [p for p in self.paths if p.consistent()]
         if not self.paths:
             raise AnalysisError(f"{f.qual}: no complete path")
 
